@@ -552,8 +552,8 @@ impl LoadBalancingAlgorithm for Rendezvous {
 /// is present in the healthy subset. The table maps to the full set it was
 /// built from; membership is checked against the subset, so an unhealthy
 /// backend is simply skipped — no rebuild, and healthy keys stay pinned. If no
-/// table entry resolves to a healthy backend, fall back to round-robin over the
-/// subset. With no key it falls back to round-robin.
+/// table entry resolves to a healthy backend, fall back to `key % len` over the
+/// subset (still key-affine). With no key it falls back to round-robin.
 #[derive(Debug)]
 pub struct Maglev {
     seed: u64,
@@ -839,9 +839,15 @@ impl LoadBalancingAlgorithm for Maglev {
         }
 
         // None of the table entries resolved to a healthy backend (every
-        // backend the table knows about is currently unhealthy/absent). Fall
-        // back to round-robin over the healthy subset so we still route.
-        self.round_robin.next_available_backend(None, backends)
+        // backend the table knows about is currently unhealthy/absent, or the
+        // healthy ones own no slot because their weight share of the table
+        // rounds down to zero). Fall back to a key-derived index over the
+        // healthy subset so we still route AND the key stays pinned to one
+        // backend while the subset is unchanged (the round-robin cursor used
+        // here before sprayed one flow over every healthy backend).
+        let index = (key % backends.len() as u64) as usize;
+        debug_assert!(index < backends.len(), "Maglev fallback index out of range");
+        backends.get(index).cloned()
     }
 
     fn rebuild(&mut self, backends: &[Rc<RefCell<Backend>>]) {
